@@ -305,15 +305,28 @@ def _union(*pids):
 _SOLVE_PATH = _union("C01", "C05", "C07", "C10", "C11", "C14", "C15", "C17", "C18", "C19", "C20")
 _SIM_PATH = _SOLVE_PATH + [r for r in _union("C02", "C03", "C04", "C08") if r.rule_name not in {x.rule_name for x in _SOLVE_PATH}]
 _TRANSITION_PATH = _union("C03", "C04", "C07", "C19")
+_TRANSITION_PATH = _TRANSITION_PATH + [r for r in _union("C13") if r.rule_name not in {x.rule_name for x in _TRANSITION_PATH}]
+_REPRESENTATION_PATH = _union("C14", "C15", "C16", "C17")
+_REDUCTION_PATH = _union("C18", "C20", "C17", "C05")
+_DISPATCH_USERS = [bel.masked_reduction, bel.bellman_form, eff.order_taint]
 for _p, _rules, _what in (("C01", _SOLVE_PATH, "solve"), ("C10", _SOLVE_PATH, "solve"), ("C11", _SOLVE_PATH, "solve"),
+                          ("C05", _SOLVE_PATH, "solve"), ("C17", _SOLVE_PATH, "solve"),
                           ("C06", _SIM_PATH, "solve and simulate"), ("C02", _SIM_PATH, "solve and simulate"),
-                          ("C03", _TRANSITION_PATH, "the simulated transitions"), ("C04", _TRANSITION_PATH, "the simulated transitions")):
+                          ("C08", _SIM_PATH, "solve and simulate"), ("C09", _SIM_PATH, "solve and simulate"),
+                          ("C13", _SIM_PATH, "solve and simulate"), ("C18", _SIM_PATH, "solve and simulate"),
+                          ("C03", _TRANSITION_PATH, "the simulated transitions and their report"),
+                          ("C04", _TRANSITION_PATH, "the simulated transitions and their report"),
+                          ("C07", _TRANSITION_PATH, "the parameters of the transitions"),
+                          ("C14", _REPRESENTATION_PATH, "the function representation (grids, state space, interpolation)"),
+                          ("C15", _REPRESENTATION_PATH, "the function representation (grids, state space, interpolation)"),
+                          ("C20", _REDUCTION_PATH, "the discrete reduction (segments, choice axes)"),
+                          ("C19", _DISPATCH_USERS, "the users of the dispatchers")):
     _have = {r.rule_name for r in PROPERTIES[_p]["rules"]}
     _added = [r for r in _rules if r.rule_name not in _have]
     PROPERTIES[_p]["rules"] += _added
     for _r in _added:
         # a rule that is restricted to some of its obligations where it comes from keeps that restriction
-        for _src in ("C01", "C05", "C07", "C10", "C11", "C14", "C15", "C17", "C18", "C19", "C20", "C02", "C03", "C04", "C08"):
+        for _src in ("C01", "C05", "C07", "C10", "C11", "C14", "C15", "C17", "C18", "C19", "C20", "C02", "C03", "C04", "C08", "C13", "C16"):
             _f = PROPERTIES[_src].get("filter", {}).get(_r.rule_name)
             if _f is not None and _r in PROPERTIES[_src]["rules"]:
                 PROPERTIES[_p].setdefault("filter", {})[_r.rule_name] = _f
